@@ -59,14 +59,14 @@ func init() {
 	if raceorc.Enabled {
 		register(&Engine{Prop: "C16", Run: c16.Run, Init: c16.Init, Isolated: true, Watchdog: 300 * time.Second, Info: func() map[string]interface{} {
 			return map[string]interface{}{
-				"rule": "3/4 of the runs are scheduled runs: 2-6 real caller goroutines (1-3 pipelines each: Parse->Fprint, or DecorateFile/ParseFile with import management through a SHARED goast resolver -> tape-drawn edits -> import-managed Fprint through a SHARED read-only name resolver -> re-decorate), serialised by a race-detector-invisible scheduler whose every decision (first worker, change points / round-robin quantum / sticky-random switches, decision-point granularity: resolver calls only, or every function entry of an instrumented copy of the library) comes from the tape; oracles: race detector (O1), equality with an isolated sequential reference (O2), in-worker repetition (O3), no panic (O4), progress (O5). " +
+				"rule": "3/4 of the runs are scheduled runs: 2-6 real caller goroutines (1-3 pipelines each: Parse->Fprint (or RestoreFile / decision point / format.Node), DecorateFile/ParseFile with import management through a SHARED goast resolver -> tape-drawn edits -> import-managed Fprint through a SHARED read-only name resolver (optionally one reused FileRestorer per worker) -> re-decorate, or a Package over a FileSet shared by all workers saved to a private simulated disk), serialised by a race-detector-invisible scheduler whose every decision (first worker, change points / round-robin quantum / sticky-random switches, decision-point granularity: resolver calls only, or every function entry and statement of an instrumented copy of the library) comes from the tape; oracles: race detector (O1), equality with an isolated sequential reference (O2), in-worker repetition (O3), no panic (O4), progress (O5). " +
 					"1/4 are repetition runs: decorate / restore / RestoreFile / ParseDir repeated R times (8 quick, 32 thorough) on equal inputs biased to map-derived choices. evaluations = runs; a scheduled run's distinct case is the hash of its (worker, site) sequence at context switches together with the shared kinds; a repetition run's is the hash of its results; distinct by 64-bit hash over all processes.",
 				"real": []string{"decorator.Decorator / Restorer / FileRestorer, one private instance per operation", "one shared goast.DecoratorResolver per run (New(), or over guess / simple / gobuild)", "one shared guess / simple / gobuild RestorerResolver per run", "go/parser, go/format", "Go race detector (ThreadSanitizer runtime) as the happens-before judge", "real goroutines"},
 				"stub": []string{"scheduler: turn word in raw-mmap'd memory, decisions from the tape", "gobuild FindPackage (map-backed)", "optional permanently failing path inside the shared name resolver"},
-				"not_run": []string{"gotypes / gopackages resolvers", "decorator.Load", "sharing a FileSet, Decorator or Restorer between goroutines (outside C16's statement)"},
+				"not_run": []string{"gotypes / gopackages resolvers", "decorator.Load", "sharing a Decorator or Restorer between goroutines (outside C16's statement)"},
 				"assumptions": []string{
-					"decision points are operation boundaries, every resolver call and (half of the scheduled runs) every function entry of dst; standard-library code between them runs atomically",
-					"a hang seen only with function-entry decision points is attributed to the simulator and the workload is re-run with resolver-call decision points; only a hang there is reported",
+					"decision points are operation boundaries, every resolver call and (half of the scheduled runs) every function entry and statement of dst; standard-library code between them runs atomically",
+					"a hang is re-examined at coarser decision-point granularity (statement -> resolver call -> operation boundary) and reported only if it persists where no dst code is on a parked worker's stack",
 					"the race detector sees only accesses that execute, within its bounded history",
 					"map iteration order cannot be seeded from outside the Go runtime; it is sampled by repetition, so a map-order violation replays with high probability rather than certainty",
 				},
